@@ -372,6 +372,16 @@ const maxReplayAlloc = 1 << 22
 func replayObligation(e *Engine, o *Obligation, scratch string) map[string]interface{} {
 	res := map[string]interface{}{"confirmed": false}
 	pkgDir, harness, ok := harnessFor(o.Proc)
+	if ok && (harness == "reader" || harness == "writer") {
+		// frame level: search driven by the obligation's subject (heap models are not API-reachable states)
+		focus := strings.ToLower(o.Name)
+		out, failed := runFrameHarness(pkgDir, harness, focus, scratch)
+		res["harness"] = harness
+		res["harness_output"] = truncate(out, 8000)
+		res["confirmed"] = failed
+		res["origin"] = "search around the obligation's subject with the frame-level harness (engine/harness/lz4_replay_test.go.txt)"
+		return res
+	}
 	if !ok {
 		res["note"] = "no replay harness for " + o.Proc + "; the failed obligation and the solver output are recorded"
 		return res
@@ -431,6 +441,20 @@ func harnessFor(proc string) (pkgDir, harness string, ok bool) {
 	case "lz4block.CompressorHC.CompressBlock", "lz4block.CompressBlockHC":
 		return filepath.Join(repoDir, "internal/lz4block"), "compresshc", true
 	}
+	readerFuncs := []string{"lz4stream.Frame.ParseHeaders", "lz4stream.Frame.readUint32", "lz4stream.FrameDescriptor.initR", "lz4stream.FrameDataBlock.Read",
+		"lz4stream.FrameDataBlock.Uncompress", "lz4stream.Frame.CloseR", "lz4stream.Blocks.initR", "lz4.Reader.", "lz4.ValidFrameHeader"}
+	for _, p := range readerFuncs {
+		if strings.HasPrefix(proc, p) {
+			return repoDir, "reader", true
+		}
+	}
+	writerFuncs := []string{"lz4stream.FrameDescriptor.Write", "lz4stream.FrameDescriptor.initW", "lz4stream.FrameDataBlock.Compress", "lz4stream.FrameDataBlock.Write",
+		"lz4stream.Frame.CloseW", "lz4stream.Frame.InitW", "lz4stream.Blocks.initW", "lz4.Writer."}
+	for _, p := range writerFuncs {
+		if strings.HasPrefix(proc, p) {
+			return repoDir, "writer", true
+		}
+	}
 	return "", "", false
 }
 
@@ -487,3 +511,26 @@ func goCache() string {
 }
 
 var _ = strconv.Itoa
+
+func runFrameHarness(pkgDir, harness, focus, scratch string) (string, bool) {
+	testSrc := filepath.Join(verifDir(), "engine", "harness", "lz4_replay_test.go.txt")
+	dst := filepath.Join(scratch, "zz_lz4verif_frame_replay_test.go")
+	data, err := os.ReadFile(testSrc)
+	if err != nil {
+		return "harness source missing: " + err.Error(), false
+	}
+	os.WriteFile(dst, data, 0o644)
+	ov := map[string]map[string]string{"Replace": {filepath.Join(pkgDir, "zz_lz4verif_frame_replay_test.go"): dst}}
+	ovData, _ := json.Marshal(ov)
+	ovFile := filepath.Join(scratch, "ovf.json")
+	os.WriteFile(ovFile, ovData, 0o644)
+	args := []string{"test", "-v", "-overlay", ovFile, "-vet=off", "-count=1", "-timeout", "180s", "-run", "TestLz4verifReplay", "."}
+	cmd := exec.Command("go", args...)
+	cmd.Dir = pkgDir
+	cmd.Env = append(os.Environ(), "GOFLAGS=-mod=mod", "GOPROXY=off", "GOSUMDB=off", "GOTOOLCHAIN=local",
+		"LZ4VERIF_HARNESS="+harness, "LZ4VERIF_FOCUS="+focus, "LZ4VERIF_SEED="+strconv.Itoa(envInt("VERIF_SEED", 0)), "GOCACHE="+goCache())
+	t0 := time.Now()
+	out, _ := cmd.CombinedOutput()
+	res := fmt.Sprintf("== frame harness %s focus=%q (%.1fs)\n%s\n", harness, focus, time.Since(t0).Seconds(), string(out))
+	return res, strings.Contains(string(out), "LZ4VERIF-FAIL")
+}
